@@ -141,6 +141,7 @@ func (y *rtWalker) run() {
 		}
 	}
 	var funcStack []string
+	var litStack []*ast.FuncLit
 	skip := map[*ast.BlockStmt]bool{} // bodies of switch/select hold clauses, not statements
 	var visit func(n ast.Node) bool
 	addYields := func(list []ast.Stmt) {
@@ -152,12 +153,20 @@ func (y *rtWalker) run() {
 			id := len(y.rep.Yields) + 1
 			y.rep.Yields = append(y.rep.Yields, YSite{ID: id, File: w.rel, Func: fn, Line: w.pkg.Fset.Position(st.Pos()).Line})
 			text := fmt.Sprintf("verifhook.Y(%d, %d); ", y.rep.PkgID, id)
-			for _, a := range y.stmtAccesses(st) {
+			var encl *ast.FuncLit
+			if len(litStack) > 0 {
+				encl = litStack[len(litStack)-1]
+			}
+			for _, a := range y.stmtAccesses(st, encl) {
 				fnName := "R"
 				if a.write {
 					fnName = "W"
 				}
-				text += fmt.Sprintf("verifhook.%s(%d, %d, %s, %q); ", fnName, y.rep.PkgID, id, a.root, a.loc)
+				if a.isMap {
+					text += fmt.Sprintf("verifhook.%sM(%d, %d, func() any { return %s }, %q); ", fnName, y.rep.PkgID, id, a.expr, a.label)
+				} else {
+					text += fmt.Sprintf("verifhook.%sA(%d, %d, func() any { return &(%s) }, %q); ", fnName, y.rep.PkgID, id, a.expr, a.label)
+				}
 				y.rep.Accesses++
 			}
 			w.es.insert(w.off(st.Pos()), text)
@@ -173,6 +182,11 @@ func (y *rtWalker) run() {
 			funcStack = append(funcStack, funcName(x))
 			ast.Inspect(x.Body, visit)
 			funcStack = funcStack[:len(funcStack)-1]
+			return false
+		case *ast.FuncLit:
+			litStack = append(litStack, x)
+			ast.Inspect(x.Body, visit)
+			litStack = litStack[:len(litStack)-1]
 			return false
 		case *ast.SwitchStmt:
 			skip[x.Body] = true
